@@ -52,6 +52,8 @@ def gen(rng, tier):
         case["mode"] = "vrptw"
         case["heur"] = rng.choice(["0", "1", "10", "40", "1000", "5/4"])
         case["twice"] = rng.random() < 0.3
+        if rng.random() < 0.35:
+            case["pre"] = rng.sample(["n", "obj", "con", "qubo_o", "qubo_f"], rng.randint(1, 3))
         if case["form"] == "path":
             # make the documented preconditions of 'always succeeds' hold: demands within capacity
             cap = Fraction(case["spec"]["cap"])
@@ -179,6 +181,12 @@ def run_case(case, drv):
 
     form = case["form"]
     o, _ = FU.build_form(case, with_heur=False)
+    for q in case.get("pre", []):
+        try:
+            {"n": o.get_num_variables, "obj": o.get_objective_data, "con": o.get_constraint_data,
+             "qubo_o": lambda: o.get_qubo(feasibility=False), "qubo_f": lambda: o.get_qubo(feasibility=True)}[q]()
+        except Exception:  # noqa
+            pass
     pre = preconditions(case, o, form)
     res.features += [f"form:{form}", f"pre:{pre}"]
     label = f"(high_cost {case['heur']})"
